@@ -69,6 +69,12 @@ def tars2go_flags(info):
     fl = ["-outdir=gen/p%d" % info["id"], "-module=verif/harness"]
     fl.append("-without-trace=%s" % ("true" if info["without_trace"] else "false"))
     fl.append("-add-servant=%s" % ("true" if info["add_servant"] else "false"))
+    if info.get("json_omitempty"):
+        fl.append("-json-omitempty=true")
+    if info.get("dispatch_reporter"):
+        fl.append("-dispatch-reporter=true")
+    if info.get("module_upper"):
+        fl.append("-module-upper=true")
     return fl
 
 
